@@ -173,8 +173,8 @@ Definition obs_okb (g : cfg) (h : list obs) (o : obs) : bool :=
       (* refusing is only allowed once the runners are done *)
       g_closer g && (ok || (run_called h && all_runners_returned g h))
   | OAdd i ok =>
-      (* refusing is only allowed once Run was called *)
-      ok || run_called h
+      (* refusing is only allowed once Run (or, for the closer manager, Close) was called *)
+      ok || run_called h || (g_closer g && close_called h)
   end.
 
 Definition run_returned (k : nat) (t : list obs) : bool :=
